@@ -6,7 +6,7 @@
  * read lock is really shared. */
 #include "common.h"
 
-enum { A_U0, A_U1, A_EXT, A_US };  /* actor kinds; A_US: ULT in a pool shared by
+enum { A_U0, A_U1, A_EXT, A_US, A_TASK1 /* tasklet on ES1: must be refused */ };  /* actor kinds; A_US: ULT in a pool shared by
                                      * two extra streams (may resume elsewhere) */
 enum { R, W };               /* roles */
 
@@ -69,6 +69,12 @@ static const cfg_t cfgs[] = {
       { ACT(A_US, W, 2, 0), ACT(A_US, W, 2, 0), ACT(A_EXT, R, 1, 0) } },
     { "WRR US+US+X (pool shared by 2 streams, yield in cs)", 0, 0, 3,
       { ACT(A_US, W, 2, 1), ACT(A_US, R, 1, 1), ACT(A_EXT, R, 1, 0) } },
+    /* a tasklet may not take a rwlock with the 1.x API: it gets ABT_ERR_RWLOCK,
+     * holds nothing and leaves the lock usable for everybody else */
+    { "W U0 (yield in cs) + R U1 + tasklet@ES1.rdlock (refused)", 1, 0, 3,
+      { ACT(A_U0, W, 1, 1), ACT(A_U1, R, 1, 0), ACT(A_TASK1, R, 1, 0) } },
+    { "R X + R U0 + tasklet@ES1.wrlock (refused)", 0, 0, 3,
+      { ACT(A_EXT, R, 1, 0), ACT(A_U0, R, 1, 0), ACT(A_TASK1, W, 1, 0) } },
     { "W2 R2 W US+US+US (pool shared by 2 streams)", 0, 0, 3,
       { ACT(A_US, W, 2, 0), ACT(A_US, R, 2, 0), ACT(A_US, W, 1, 0) } },
 };
@@ -96,6 +102,14 @@ static void actor_body(void *arg)
 {
     int idx = (int)(intptr_t)arg;
     const actor_t *a = &C->a[idx];
+    if (a->actor == A_TASK1) {
+        int rc = a->role == R ? ABT_rwlock_rdlock(rwl) : ABT_rwlock_wrlock(rwl);
+        abtmc_check(rc == ABT_ERR_RWLOCK, "rwlock_tasklet",
+                    "ABT_rwlock_%s called by a tasklet returned %d (1.x API: "
+                    "ABT_ERR_RWLOCK)", a->role == R ? "rdlock" : "wrlock", rc);
+        done_rounds[idx] = a->rounds;
+        return;
+    }
     for (int r = 0; r < a->rounds; r++) {
         if (a->role == R) {
             OK(ABT_rwlock_rdlock(rwl));
@@ -156,7 +170,7 @@ static void scenario(int cfg)
     ABT_xstream es1 = ABT_XSTREAM_NULL;
     int need_es1 = 0;
     for (int i = 0; i < C->nactors; i++)
-        if (C->a[i].actor == A_U1)
+        if (C->a[i].actor == A_U1 || C->a[i].actor == A_TASK1)
             need_es1 = 1;
     OK(ABT_rwlock_create(&rwl));
     if (need_es1)
@@ -204,6 +218,9 @@ static void scenario(int cfg)
             case A_US:
                 OK(ABT_thread_create(ps, actor_body, arg, ABT_THREAD_ATTR_NULL,
                                      &th[i]));
+                break;
+            case A_TASK1:
+                OK(ABT_task_create(p1, actor_body, arg, &th[i]));
                 break;
             default:
                 xt[i] = abtmc_thread_create(actor_body, arg);
